@@ -50,7 +50,7 @@ Print Assumptions C03_cancelled_by_close_refuted.
 (* repaired defect D42 -- a unary-reply handler raises GRPCError(Status.OK) without having sent a message:
    answered UNKNOWN "Internal Server Error" with exactly one terminal (it used to get no frame at all) *)
 Theorem C03_grpc_ok_without_message_status :
-  forall known hs e p t m, validate known hs = VAccept t -> t <> TExpired ->
+  forall known hs e p t m, validate (e_codec e) known hs = VAccept t -> t <> TExpired ->
   let r := run_call known hs e p in
   exit_exn (r_end r) = Some (EGRPC status_ok m) -> reset_kind (r_end r) = false ->
   trail_done (r_pre r) = false -> cancel_done (r_pre r) = false ->
@@ -72,7 +72,7 @@ Print Assumptions C03_ok_only_if_normal.
 
 (* (2b) the status sent at exit is the function implicit_status of (cardinality, message sent, ending) *)
 Theorem C03_status_at_exit :
-  forall known hs e p t, validate known hs = VAccept t -> t <> TExpired ->
+  forall known hs e p t, validate (e_codec e) known hs = VAccept t -> t <> TExpired ->
   let r := run_call known hs e p in
   r_end r <> KHang -> reset_kind (r_end r) = false ->
   trail_done (r_pre r) = false -> cancel_done (r_pre r) = false ->
@@ -82,7 +82,7 @@ Print Assumptions C03_status_at_exit.
 
 (* normal return: OK, or UNKNOWN "Internal Server Error" for a unary reply without its message *)
 Theorem C03_return_status :
-  forall known hs e p t, validate known hs = VAccept t -> t <> TExpired ->
+  forall known hs e p t, validate (e_codec e) known hs = VAccept t -> t <> TExpired ->
   let r := run_call known hs e p in
   returned_normally (r_end r) = true -> trail_done (r_pre r) = false -> cancel_done (r_pre r) = false ->
   final_status (r_out r) =
@@ -92,7 +92,7 @@ Print Assumptions C03_return_status.
 
 (* raise GRPCError(st, m): exactly (st, m) on the wire *)
 Theorem C03_grpc_error_status :
-  forall known hs e p t st m, validate known hs = VAccept t -> t <> TExpired ->
+  forall known hs e p t st m, validate (e_codec e) known hs = VAccept t -> t <> TExpired ->
   let r := run_call known hs e p in
   exit_exn (r_end r) = Some (EGRPC st m) -> reset_kind (r_end r) = false ->
   trail_done (r_pre r) = false -> cancel_done (r_pre r) = false ->
@@ -103,7 +103,7 @@ Print Assumptions C03_grpc_error_status.
 
 (* any other Exception: UNKNOWN *)
 Theorem C03_exception_status :
-  forall known hs e p t, validate known hs = VAccept t -> t <> TExpired ->
+  forall known hs e p t, validate (e_codec e) known hs = VAccept t -> t <> TExpired ->
   let r := run_call known hs e p in
   exit_exn (r_end r) = Some EExc -> reset_kind (r_end r) = false ->
   trail_done (r_pre r) = false -> cancel_done (r_pre r) = false ->
@@ -114,7 +114,7 @@ Print Assumptions C03_exception_status.
 (* ... in particular the handler's OWN asyncio.TimeoutError / StreamTerminatedError / ProtocolError, whatever
    deadline the request carries (t is arbitrary), as long as that deadline has not fired *)
 Theorem C03_own_exception_is_unknown :
-  forall known hs e p t k, validate known hs = VAccept t -> t <> TExpired ->
+  forall known hs e p t k, validate (e_codec e) known hs = VAccept t -> t <> TExpired ->
   let r := run_call known hs e p in
   (r_end r = KFin (RaiseException k) \/ r_end r = KSwallowed CClose (RaiseException k)) ->
   trail_done (r_pre r) = false -> cancel_done (r_pre r) = false ->
@@ -124,7 +124,7 @@ Print Assumptions C03_own_exception_is_unknown.
 
 (* the deadline: DEADLINE_EXCEEDED and exactly one terminal, honoured or swallowed-then-anything *)
 Theorem C03_deadline_status :
-  forall known hs e p t, validate known hs = VAccept t -> t <> TExpired ->
+  forall known hs e p t, validate (e_codec e) known hs = VAccept t -> t <> TExpired ->
   let r := run_call known hs e p in
   deadline_kind (r_end r) = true -> trail_done (r_pre r) = false -> cancel_done (r_pre r) = false ->
   final_status (r_out r) = Some (4, None) /\ accepted (r_out r) = true.
@@ -133,7 +133,7 @@ Print Assumptions C03_deadline_status.
 
 (* ... and a deadline that has expired on arrival (repaired defect D7): trailers-only DEADLINE_EXCEEDED *)
 Theorem C03_expired_on_arrival :
-  forall known hs e p, validate known hs = VAccept TExpired ->
+  forall known hs e p, validate (e_codec e) known hs = VAccept TExpired ->
   let r := run_call known hs e p in
   r_out r = FHeaders 200 true (Some 4) None true :: (if e_eof e then [] else [FRst]) /\
   r_end r = KNotRun /\ r_results r = [].
@@ -142,7 +142,7 @@ Print Assumptions C03_expired_on_arrival.
 
 (* (2c) trailers sent by the handler itself stand, whatever it raises afterwards *)
 Theorem C03_explicit_status_stands :
-  forall known hs e p t, validate known hs = VAccept t -> t <> TExpired ->
+  forall known hs e p t, validate (e_codec e) known hs = VAccept t -> t <> TExpired ->
   let r := run_call known hs e p in
   trail_done (r_pre r) = true ->
   exists st m, In (SendTrailing st m false) (p_ops p) /\ final_status (r_out r) = Some (st, m).
@@ -158,7 +158,7 @@ Print Assumptions C03_unary_at_most_one_message.
 (* (3) every refused request is answered: one HEADERS+END_STREAM error response (+ RST_STREAM while the
    client has not ended its side), no message, the handler is not called *)
 Theorem C03_unacceptable_rejected :
-  forall known hs e p i h gs m, validate known hs = VAbort i h gs m ->
+  forall known hs e p i h gs m, validate (e_codec e) known hs = VAbort i h gs m ->
   let r := run_call known hs e p in
   r_out r = FHeaders h false gs m true :: (if e_eof e then [] else [FRst]) /\
   accepted (r_out r) = true /\ error_response h gs = true /\ count_data (r_out r) = 0%nat /\
@@ -169,14 +169,14 @@ Print Assumptions C03_unacceptable_rejected.
 (* which requests are refused, with what: the checks of request_handler in source order (the table is
    regenerated from /repo): 405; 415 UNKNOWN x2; 400 UNKNOWN; UNIMPLEMENTED; UNKNOWN timeout; UNKNOWN metadata *)
 Theorem C03_validation_order :
-  forall known hs, validate known hs = validate_spec known hs.
+  forall cs known hs, validate cs known hs = validate_spec cs known hs.
 Proof. exact validate_is_spec. Qed.
 Print Assumptions C03_validation_order.
 
 Theorem C03_accepted_request_is_grpc :
-  forall known hs t, validate known hs = VAccept t ->
+  forall cs known hs t, validate cs known hs = VAccept t ->
   opt_is (hget (s2z ":method") hs) (s2z "POST") = true /\
-  (exists v, hget (s2z "content-type") hs = Some v /\ content_type_ok v = true) /\
+  (exists v, hget (s2z "content-type") hs = Some v /\ content_type_ok cs v = true) /\
   opt_is (hget (s2z "te") hs) (s2z "trailers") = true /\
   (exists q, hget (s2z ":path") hs = Some q /\ mem_str q known = true) /\
   timeout_class hs = t /\ t <> TInvalid /\ metadata_ok hs = true.
@@ -185,10 +185,18 @@ Print Assumptions C03_accepted_request_is_grpc.
 
 (* classification on all strings *)
 Theorem C03_content_type_partition :
-  forall v, content_type_ok v = true <->
-  v = s2z "application/grpc" \/ v = s2z "application/grpc+" \/ v = s2z "application/grpc+proto".
+  forall cs v, cs <> [] ->
+  (content_type_ok cs v = true <->
+   v = content_type_value cs \/
+   (cs = proto_subtype /\ (v = s2z "application/grpc" \/ v = s2z "application/grpc+"))).
 Proof. exact content_type_partition. Qed.
 Print Assumptions C03_content_type_partition.
+
+(* the bare application/grpc means +proto: a server with any other codec refuses it *)
+Theorem C03_bare_content_type_needs_proto :
+  forall cs, cs <> [] -> cs <> proto_subtype -> content_type_ok cs (s2z "application/grpc") = false.
+Proof. exact bare_content_type_needs_proto. Qed.
+Print Assumptions C03_bare_content_type_needs_proto.
 
 Theorem C03_timeout_grammar :
   forall v z, decode_timeout_zero v = Some z ->
